@@ -46,7 +46,7 @@ fn match_text(
             if instance_num > 0 {
                 text_sensitive(text, delimiter, instance_num)
             } else {
-                text_sensitive_reverse(text, delimiter, -instance_num)
+                text_sensitive_reverse(text, delimiter, instance_num.saturating_neg())
             }
         }
         Case::Insensitive => {
@@ -60,7 +60,7 @@ fn match_text(
                 text_sensitive_reverse(
                     &text.to_lowercase(),
                     &delimiter.to_lowercase(),
-                    -instance_num,
+                    instance_num.saturating_neg(),
                 )
             }
         }
